@@ -818,6 +818,17 @@ def _state_table(f, R, inv_field, data_field):
     # values outside the table: the `others` edges that do not continue with another test of the state
     terminal = []
     for bi, val, cases, others in tests:
+        # a test that is reached only through *case* edges of an earlier test of the same state (`(Some(_), s @ (0 | 1)) =>
+        # if s == 0 {..} else {..}`) sees a finite set of values: its otherwise-edge stands for the rest of that set, not
+        # for values outside the table
+        bounded = False
+        for bj, valj, casesj, othersj in tests:
+            if bj == bi or not f.dominates(bj, bi):
+                continue
+            if not any(bi in reach(f.cfg(), [o]) for o in othersj) and any(bi in reach(f.cfg(), [s_]) for s_ in casesj.values()):
+                bounded = True
+        if bounded:
+            continue
         for o in others:
             if not any(tb in reach(f.cfg(), [o]) for tb in test_blocks if tb != bi and f.dominates(bi, tb)):
                 terminal.append(o)
